@@ -1,2 +1,164 @@
--- stub: replaced by the iter engine driver
-def main : IO Unit := pure ()
+/-
+Line-protocol driver for the iterator engine (C06).
+Reply format: `<model>\t<spec>`.
+
+  open …                                   (ignored: engine / value threshold of the real DB)
+  commit set:K:V,del:K,exp:K:V             one committed transaction
+  pset K V | pdel K                        non-transactional write (version MaxUint64)
+  rotate | flush                           memtable rotation / flush of the oldest immutable
+  txn.iter rev= all= pik= pfx= since= lo= hi= upd= pend=W,…   Txn.NewIterator / NewKeyIterator
+  db.iter rev= lo= hi=                     DB.NewIterator
+  rewind | seek K | next                   cursor ops; reply = current item `K:ver:V` or `-`
+  close
+-/
+import Driver.Lib
+import NoKVModel.Iter.Model
+import NoKVModel.Iter.Spec
+
+open NoKV NoKV.Iter Driver
+
+inductive ItSt where
+  | none
+  | txn (it : TxnIt) (full cur : List Ent) (snap : List Ent)
+  | dbi (it : DbIt) (full cur : List Ent)
+
+structure St where
+  cfg : IterCfg := IterCfg.good
+  db : DB := {}
+  it : ItSt := .none
+  vt : Nat := 1048576
+
+def sideOf? : String → Option Side
+  | "left" => some .left | "right" => some .right | _ => none
+
+def setCfg (st : St) (kv : String) : Option St :=
+  match kv.splitOn "=" with
+  | [k, v] =>
+    let c := st.cfg
+    match k with
+    | "merge.eqKeyAdvances" => do let s ← sideOf? v; pure { st with cfg := { c with eqKeyAdvances := s } }
+    | "lsm.immIterOrder" =>
+      if v == "oldestFirst" then some { st with cfg := { c with immOrder := .oldestFirst } }
+      else if v == "newestFirst" then some { st with cfg := { c with immOrder := .newestFirst } } else none
+    | "txn.pendingCmp" =>
+      if v == "rawBytes" then some { st with cfg := { c with pendingCmp := .rawBytes } }
+      else if v == "compareKeys" then some { st with cfg := { c with pendingCmp := .compareKeys } } else none
+    | "txnit.lastKeyOnSkip" => do let b ← boolOfString? v; pure { st with cfg := { c with lastKeyOnSkip := b } }
+    | "txnit.revGroup" =>
+      if v == "firstSeen" then some { st with cfg := { c with revGroup := .firstSeen } }
+      else if v == "newest" then some { st with cfg := { c with revGroup := .newest } } else none
+    | "dbit.revSeekTs" =>
+      if v == "max" then some { st with cfg := { c with dbRevSeekTs := .max } }
+      else if v == "zero" then some { st with cfg := { c with dbRevSeekTs := .zero } } else none
+    | "dbit.skipsDeleted" => do let b ← boolOfString? v; pure { st with cfg := { c with dbSkipsDeleted := b } }
+    | "sst.seekFallsThrough" => do let b ← boolOfString? v; pure { st with cfg := { c with sstSeekFallsThrough := b } }
+    | "txnit.lowerOp" => do let o ← CmpOp.ofString? v; pure { st with cfg := { c with txnLowerOp := o } }
+    | "txnit.upperOp" => do let o ← CmpOp.ofString? v; pure { st with cfg := { c with txnUpperOp := o } }
+    | "txnit.seekLowerOp" => do let o ← CmpOp.ofString? v; pure { st with cfg := { c with txnSeekLowerOp := o } }
+    | "txnit.seekUpperOp" => do let o ← CmpOp.ofString? v; pure { st with cfg := { c with txnSeekUpperOp := o } }
+    | "txnit.readTsOp" => do let o ← CmpOp.ofString? v; pure { st with cfg := { c with txnReadTsOp := o } }
+    | "readts.op" => do let o ← CmpOp.ofString? v; pure { st with cfg := { c with wrapReadTsOp := o } }
+    | "txnit.sinceOp" => do let o ← CmpOp.ofString? v; pure { st with cfg := { c with txnSinceOp := o } }
+    | "dbit.lowerOp" => do let o ← CmpOp.ofString? v; pure { st with cfg := { c with dbLowerOp := o } }
+    | "dbit.upperOp" => do let o ← CmpOp.ofString? v; pure { st with cfg := { c with dbUpperOp := o } }
+    | "dbit.seekLowerOp" => do let o ← CmpOp.ofString? v; pure { st with cfg := { c with dbSeekLowerOp := o } }
+    | "dbit.seekUpperOp" => do let o ← CmpOp.ofString? v; pure { st with cfg := { c with dbSeekUpperOp := o } }
+    | _ => none
+  | _ => none
+
+def parseWrite? (s : String) : Option Write :=
+  match s.splitOn ":" with
+  | ["set", k, v] => do let k ← bytesOf? k; let v ← bytesOf? v; pure ⟨k, v, false, false⟩
+  | ["exp", k, v] => do let k ← bytesOf? k; let v ← bytesOf? v; pure ⟨k, v, false, true⟩
+  | ["del", k] => do let k ← bytesOf? k; pure ⟨k, [], true, false⟩
+  | _ => none
+
+def parseWrites? (s : String) : Option (List Write) :=
+  if s == "-" || s == "" then some [] else (s.splitOn ",").mapM parseWrite?
+
+def verStr (v : Nat) : String := if v == maxU64 then "max" else toString v
+
+def itemStr : Option Ent → String
+  | none => "-"
+  | some e => s!"{e.key.toHex}:{verStr e.ver}:{e.val.toHex}"
+
+def flag (toks : List String) (k : String) : Bool := (kv? toks k).getD "0" == "1"
+def bytesArg (toks : List String) (k : String) : Option Bytes := bytesOf? ((kv? toks k).getD "-")
+
+def cursor (st : St) (op : CurOp) : St × String :=
+  match st.it with
+  | .none => (st, "no-iter\t*")
+  | .txn it full cur snap =>
+    let it' := it.step st.cfg op
+    let cur' := specStep full it.opt.reverse true cur op
+    ({ st with it := .txn it' full cur' snap }, itemStr it'.cur ++ "\t" ++ itemStr cur'.head?)
+  | .dbi it full cur =>
+    let it' := it.step st.cfg op
+    let cur' := specStep full (!it.asc) false cur op
+    ({ st with it := .dbi it' full cur' }, itemStr it'.cur ++ "\t" ++ itemStr cur'.head?)
+
+def step (st : St) (toks : List String) : St × String :=
+  match toks with
+  | "cfg" :: kvs =>
+    match kvs.foldlM setCfg st with
+    | some st' => (st', "ok")
+    | none => (st, "bad-cfg")
+  | "open" :: args => ({ st with vt := (natOf? ((kv? args "vt").getD "1048576")).getD 1048576 }, "ok\t*")
+  | ["commit", ws] =>
+    match parseWrites? ws with
+    | some ws => ({ st with db := st.db.commit ws }, "ok\tok")
+    | none => (st, "bad-op")
+  | ["pset", k, v] =>
+    match bytesOf? k, bytesOf? v with
+    | some k, some v => ({ st with db := st.db.plain ⟨k, v, false, false⟩ }, "ok\tok")
+    | _, _ => (st, "bad-op")
+  | ["pdel", k] =>
+    match bytesOf? k with
+    | some k => ({ st with db := st.db.plain ⟨k, [], true, false⟩ }, "ok\tok")
+    | none => (st, "bad-op")
+  | ["rotate"] => ({ st with db := st.db.rotate }, "ok\tok")
+  | ["flush"] =>
+    match st.db.imms with
+    | [] => (st, "noop\tnoop")
+    | t :: _ =>
+      let db' := st.db.flush st.vt
+      let r := if t.isEmpty then "ok:-" else "ok:" ++ ",".intercalate ((cutBySize st.vt t).map fun b => toString b.length)
+      ({ st with db := db' }, r ++ "\t*")
+  | "txn.iter" :: args =>
+    match bytesArg args "pfx", bytesArg args "lo", bytesArg args "hi", parseWrites? ((kv? args "pend").getD "-"),
+          natOf? ((kv? args "since").getD "0") with
+    | some pfx, some lo, some hi, some pend, some since =>
+      let pik := flag args "pik"
+      let o : Opts := { reverse := flag args "rev", allVersions := flag args "all" || pik, prefixIsKey := pik,
+                        pfx := pfx, sinceTs := since, lower := lo, upper := hi }
+      let upd := flag args "upd"
+      let it := newTxnIt st.cfg st.db upd pend o
+      let full := specTxnList (txnSnapshot st.db upd pend) o st.db.readTs
+      ({ st with it := .txn it full [] (txnSnapshot st.db upd pend) }, "ok\tok")
+    | _, _, _, _, _ => (st, "bad-op")
+  | "db.iter" :: args =>
+    match bytesArg args "lo", bytesArg args "hi" with
+    | some lo, some hi =>
+      let asc := !flag args "rev"
+      let it := newDbIt st.cfg st.db asc lo hi
+      let full := specDbList (dbSnapshot st.db) asc lo hi
+      ({ st with it := .dbi it full [] }, "ok\tok")
+    | _, _ => (st, "bad-op")
+  | ["rewind"] => cursor st .rewind
+  | ["seek", k] =>
+    match bytesOf? k with
+    | some k => cursor st (.seek k)
+    | none => (st, "bad-op")
+  | ["next"] => cursor st .next
+  | ["get", k] =>
+    match bytesOf? k, st.it with
+    | some k, .txn it _ _ snap =>
+      let r := match specGet snap it.readTs k with
+        | none => "notfound"
+        | some e => if e.dead then "notfound" else e.val.toHex
+      (st, r ++ "\t" ++ r)
+    | _, _ => (st, "no-iter\t*")
+  | ["close"] => ({ st with it := .none }, "ok\tok")
+  | _ => (st, "bad-op")
+
+def main : IO Unit := Driver.loop ({} : St) step
